@@ -88,3 +88,67 @@ func VerifC18NewSampler() {
 	verifAssert(s.minP >= 0 && s.minP <= 1, "minP-clamped")
 	verifAssert((s.rng != nil) == (seed != -1), "seeded-generator-iff-seed-given")
 }
+
+// ---- temperature > 0: lemma-abstracted arithmetic (see engine/absfloat.go) ----
+
+// replacement for (*rand.Rand).Float32 / rand.Float32: an arbitrary draw in [0,1)
+func vfDraw() float32 {
+	r := verifNondetF32("draw")
+	verifAssume(r >= 0 && r < 1)
+	return r
+}
+
+// pure helper (merged into one term)
+func vfInRange(l float32) bool { return l >= -1000 && l <= 1000 }
+
+func vfGreater(ls []float32, x float32) int {
+	n := 0
+	for _, l := range ls {
+		if l > x {
+			n++
+		}
+	}
+	return n
+}
+
+// VerifC18Sample: the probabilistic path. Logits finite or -Inf with at least one finite value;
+// temperature > 0; every top-k, top-p, min-p; arbitrary draw. Decided: no panic, a token inside the
+// vocabulary, never a -Inf logit, inside the top-k set, and an error only for a NaN sum.
+func VerifC18Sample(n int) {
+	logits := make([]float32, n)
+	someFinite := false
+	for i := range logits {
+		l := verifNondetF32("logit")
+		if math.IsInf(float64(l), -1) {
+			// -Inf: a token the model (or a grammar) has ruled out
+		} else {
+			verifAssume(vfInRange(l)) // finite logits in [-1000, 1000] (stated bound)
+			someFinite = true
+		}
+		logits[i] = l
+	}
+	verifAssume(someFinite)
+	orig := make([]float32, n)
+	copy(orig, logits)
+	temp := verifNondetF32("temperature")
+	verifAssume(temp > 0 && temp <= 100)
+	k := verifNondetInt("topK")
+	verifAssume(k >= -1 && k <= n+1)
+	topP, minP := verifNondetF32("topP"), verifNondetF32("minP")
+	verifAssume(topP == topP && minP == minP)
+	s := NewSampler(temp, k, topP, minP, -1, nil)
+	tok, err := s.Sample(logits)
+	verifReach("sampled")
+	if err != nil {
+		return
+	}
+	verifReach("token-returned")
+	ok := tok >= 0 && int(tok) < n
+	verifAssert(ok, "token-inside-vocabulary")
+	if ok {
+		verifAssert(!math.IsInf(float64(orig[tok]), -1), "token-is-not-minus-infinity")
+		if k >= 1 && k < n {
+			verifAssert(vfGreater(orig, orig[tok]) < k, "token-is-inside-the-top-k")
+		}
+	}
+}
